@@ -66,21 +66,18 @@ func runSolver(ctx context.Context, sp SolverSpec, path string, timeout time.Dur
 	return solveOut{sp.Name, st, out, dt}
 }
 
-// Solve runs the portfolio on an obligation; the first definite answer wins.
+// raceResult is the outcome of running the solver portfolio on one query file.
+type raceResult struct {
+	status  string // proved, refuted, unknown, error
+	solver  string
+	seconds float64
+	output  string
+	satOut  string
+}
+
+// race runs the portfolio on one query file; the first definite answer wins.
 // When need2 is set, "proved" requires two solvers to answer unsat.
-func Solve(o *Obligation, s *Script, dir string, timeout time.Duration, need2 bool, order []int) {
-	if o.Static {
-		return
-	}
-	os.MkdirAll(dir, 0o755)
-	name := sanitize(o.ID)
-	path := filepath.Join(dir, name+".smt2")
-	if err := os.WriteFile(path, []byte(o.SMT(s, true)), 0o644); err != nil {
-		o.Status = "error"
-		o.Output = err.Error()
-		return
-	}
-	o.SMTPath = path
+func race(path string, timeout time.Duration, need2 bool, order []int) raceResult {
 	ctx, cancel := context.WithCancel(context.Background())
 	defer cancel()
 	ch := make(chan solveOut, len(Solvers))
@@ -100,37 +97,123 @@ func Solve(o *Obligation, s *Script, dir string, timeout time.Duration, need2 bo
 	t0 := time.Now()
 	var unsatBy []string
 	var outs []string
+	allErr := true
 	for r := range ch {
 		outs = append(outs, fmt.Sprintf("[%s %s %.2fs] %s", r.solver, r.status, r.seconds, firstLines(r.out, 3)))
+		if r.status != "error" {
+			allErr = false
+		}
 		switch r.status {
 		case "unsat":
 			unsatBy = append(unsatBy, r.solver)
 			if !need2 || len(unsatBy) >= 2 {
-				o.Status = "proved"
-				o.Solver = strings.Join(unsatBy, "+")
-				o.Seconds = time.Since(t0).Seconds()
-				cancel()
-				return
+				return raceResult{status: "proved", solver: strings.Join(unsatBy, "+"), seconds: time.Since(t0).Seconds()}
 			}
 		case "sat":
-			o.Status = "refuted"
-			o.Solver = r.solver
-			o.Seconds = time.Since(t0).Seconds()
-			o.Model = parseModel(o, r.out)
-			o.Output = r.out
-			cancel()
+			return raceResult{status: "refuted", solver: r.solver, seconds: time.Since(t0).Seconds(), output: r.out, satOut: r.out}
+		}
+	}
+	res := raceResult{seconds: time.Since(t0).Seconds()}
+	if len(unsatBy) > 0 {
+		// need2 but only one solver finished with unsat
+		res.status = "proved"
+		res.solver = strings.Join(unsatBy, "+") + " (single)"
+		return res
+	}
+	res.status = "unknown"
+	res.output = strings.Join(outs, "\n")
+	if allErr && len(outs) > 0 {
+		// every solver rejected the query text (parse or sort error): the generator emitted a
+		// malformed query, which says nothing about the code under contract
+		res.status = "error"
+	}
+	return res
+}
+
+// SplitFirst makes Solve put the goals of a multi-goal obligation (one goal per return path or
+// back edge) to the solvers one by one from the start instead of only after the joint query
+// stayed undecided.
+var SplitFirst = os.Getenv("VERIF_SPLIT") == "first"
+
+// Solve decides an obligation. The goals of an obligation are first put to the portfolio as one
+// disjunction; if that stays undecided and there are several goals, each goal is tried on its
+// own (the obligation holds iff every goal's query is unsatisfiable, so this changes nothing
+// about what is proved, only how much case splitting one solver run has to do).
+func Solve(o *Obligation, s *Script, dir string, timeout time.Duration, need2 bool, order []int) {
+	if o.Static {
+		return
+	}
+	os.MkdirAll(dir, 0o755)
+	name := sanitize(o.ID)
+	path := filepath.Join(dir, name+".smt2")
+	if err := os.WriteFile(path, []byte(o.SMT(s, true)), 0o644); err != nil {
+		o.Status = "error"
+		o.Output = err.Error()
+		return
+	}
+	o.SMTPath = path
+	set := func(r raceResult) {
+		o.Status, o.Solver, o.Output = r.status, r.solver, r.output
+		if r.status == "refuted" {
+			o.Model = parseModel(o, r.satOut)
+		}
+	}
+	t0 := time.Now()
+	defer func() { o.Seconds = time.Since(t0).Seconds() }()
+	var joint raceResult
+	if !SplitFirst || len(o.Goals) < 2 {
+		joint = race(path, timeout, need2, order)
+		if joint.status != "unknown" || len(o.Goals) < 2 {
+			set(joint)
 			return
 		}
 	}
-	o.Seconds = time.Since(t0).Seconds()
-	if len(unsatBy) > 0 {
-		// need2 but only one solver finished with unsat
+	// goal by goal, all goals in parallel
+	res := make([]raceResult, len(o.Goals))
+	var wg sync.WaitGroup
+	for i := range o.Goals {
+		gp := filepath.Join(dir, fmt.Sprintf("%s.goal%d.smt2", name, i))
+		if err := os.WriteFile(gp, []byte(o.SMTGoal(s, true, i)), 0o644); err != nil {
+			res[i] = raceResult{status: "error", output: err.Error()}
+			continue
+		}
+		wg.Add(1)
+		go func() {
+			defer wg.Done()
+			res[i] = race(gp, timeout, need2, order)
+		}()
+	}
+	wg.Wait()
+	solvers := map[string]bool{}
+	var outs []string
+	for i, r := range res {
+		switch r.status {
+		case "refuted":
+			o.SMTPath = filepath.Join(dir, fmt.Sprintf("%s.goal%d.smt2", name, i))
+			set(r)
+			return
+		case "proved":
+			solvers[r.solver] = true
+		default:
+			outs = append(outs, fmt.Sprintf("goal %d: %s\n%s", i, r.status, r.output))
+		}
+	}
+	if len(outs) == 0 {
 		o.Status = "proved"
-		o.Solver = strings.Join(unsatBy, "+") + " (single)"
+		o.Solver = strings.Join(sortedKeys(solvers), ",") + " (goal by goal)"
 		return
 	}
 	o.Status = "unknown"
-	o.Output = strings.Join(outs, "\n")
+	o.Output = joint.output + "\n" + strings.Join(outs, "\n")
+	allErr := true
+	for _, r := range res {
+		if r.status != "error" {
+			allErr = false
+		}
+	}
+	if allErr {
+		o.Status = "error"
+	}
 }
 
 func firstLines(s string, n int) string {
